@@ -1,5 +1,6 @@
 # Registry of checks: property id -> harness package, test function, level.
 CHECKS = {
+    "C01": {"pkg": "checks/c01", "test": "TestC01", "level": "model_checking", "shards": 16},
     "C02": {"pkg": "checks/c02", "test": "TestC02", "level": "exploration", "shards": 16},
     "C03": {"pkg": "checks/c03", "test": "TestC03", "level": "model_checking", "shards": 16},
     "C11": {"pkg": "checks/c11", "test": "TestC11", "level": "model_checking", "shards": 16, "budget_s": {"quick": 100, "thorough": 1500}},
